@@ -92,6 +92,13 @@ def explain(trace, res):
         if ev["status"] == "done" and b0["shots"] > 0 and ev["counts_sum"] not in (-1, b0["shots"]):
             return f"accounting: sum(get_counts())={ev['counts_sum']} != shots={b0['shots']}"
         return f"end event not explained by the spec: status={ev['status']} exc={ev['exc']} (spec expected a different continuation)"
+    if ev and ev.get("e") == "step" and ev.get("ok"):
+        sids = [s_.get("sid", 0) for s_ in ev["subs"] if s_.get("sid", 0)]
+        if len(set(sids)) != len(sids):
+            i = sum(1 for e in evs[:at] if e.get("e") == "ibegin")
+            ins = b0["prog"][i - 1] if 0 < i <= len(b0["prog"]) else {}
+            return f"chain-rule: {ins.get('cls')} returned branches that share one state object (aliasing): later instructions act on it once per branch"
+        cur = ev.get("cur_shots")
     if ev and ev.get("e") == "step" and ev.get("ok") and b0["shots"] == 0:
         i = sum(1 for e in evs[:at] if e.get("e") == "ibegin")
         ins = b0["prog"][i - 1] if 0 < i <= len(b0["prog"]) else {}
